@@ -350,6 +350,10 @@ def v2_rail(kind, idx, shape, exc):
     name = "rail %s %s" % (kind, V2_NAMES[idx])
     act = "RailInAction" if kind == "in" else "RailOutAction"
     block = '    bot say "%s"\n    abort\n' % REFUSAL
+    if shape == "sync":
+        # decides from the text alone, nothing is awaited, fails silently
+        var = "$user_message" if kind == "in" else "$bot_message"
+        return "flow %s\n  global %s\n  if \"RJ%s%d\" in %s\n    abort\n" % (name, var, kind[0], idx, var)
     if shape == "check":
         return "flow %s\n  $allowed = await %s(idx=%d)\n  if not $allowed\n%s" % (name, act, idx, block)
     if shape == "inv":
@@ -395,7 +399,11 @@ class Scenario2:
 
         async def GenTextAction(context=None, **kw):
             sc.shared.append(("ev", ev("llm", s="gen")))
-            return bot_text(sc.cur_turn, 0)
+            turn = sc.script["turns"][sc.cur_turn - 1]
+            text = bot_text(1 if turn.get("rep") else sc.cur_turn, 0)
+            if sc.cfg["shape"] == "sync":
+                text += "".join(" RJo%d" % j for j, v in enumerate(turn["outv"]) if v == "R")
+            return text
 
         for f in (RailInAction, RailOutAction, GenTextAction):
             self.app.register_action(f, f.__name__)
